@@ -62,19 +62,27 @@ mutual
         let v := getCounter s.counters c
         if v < k then afterSimple ctx { s with counters := setCounter s.counters c (v+1), status := 0 } .continue_
         else afterSimple ctx { s with status := 1 } .continue_
-      | .call name =>
+      | .setParams n => afterSimple ctx { s with params := n, status := 0 } .continue_
+      | .freeze name =>
+        (match lookupFn s.funcs name with
+         | some _ => afterSimple ctx { s with roFuncs := name :: s.roFuncs, status := 0 } .continue_
+         | none => afterSimple ctx { s with status := 1 } .continue_)
+      | .call name nargs =>
         match classify s name with
         | .specialColon => afterSimple ctx { s with status := 0 } .continue_
         | .regularTrue => afterSimple ctx { s with status := 0 } .continue_
         | .notFound => afterSimple ctx { s with status := 127 } .continue_
         | .status n => afterSimple ctx { s with status := n } .continue_
         | .function body =>
-          let (s1, r) := specCmd fuel ctx s body
+          let (s1, r) := specCmd fuel ctx { s with params := nargs } body
+          let s1 := { s1 with params := s.params }
           match r with
           | .break_ (.return_ e) =>
             afterSimple ctx (match e with | some e => { s1 with status := e } | none => s1) .continue_
           | r => afterSimple ctx s1 r
-      | .fundef name body => afterSimple ctx { s with funcs := defineFn s.funcs name body, status := 0 } .continue_
+      | .fundef name body =>
+        if s.roFuncs.contains name then afterSimple ctx { s with status := 2 } .continue_
+        else afterSimple ctx { s with funcs := defineFn s.funcs name body, status := 0 } .continue_
       | .expErr => (s, expansionErrorS ctx s)
       | .assignErr => (s, expansionErrorS ctx s)
       | .redirErr k =>
@@ -109,6 +117,11 @@ mutual
       | .forLoop values body =>
         if values = 0 ∧ !body.isEmpty then ({ s with status := 0 }, .continue_)
         else specFor fuel ctx s values body
+      | .forPos body =>
+        if s.params = 0 ∧ !body.isEmpty then ({ s with status := 0 }, .continue_)
+        else specFor fuel ctx s s.params body
+      | .forRo values =>
+        if values = 0 then ({ s with status := 0 }, .continue_) else (s, expansionErrorS ctx s)
       | .caseC items =>
         let (s1, r, updated) := specCase fuel ctx s items false false
         match r with
